@@ -763,6 +763,9 @@ func (e *Engine) fmtValue(fr *frame, verb byte, v Value) Str {
 func (e *Engine) fmtTyped(fr *frame, verb byte, v Value, t types.Type) Str {
 	switch x := v.(type) {
 	case *Term:
+		if e.fmtLenient && !x.IsConst() {
+			return Str{S: "<sym>"}
+		}
 		if x.S.K == KBool {
 			b := e.Branch(x)
 			return Str{S: strconv.FormatBool(b)}
@@ -786,6 +789,9 @@ func (e *Engine) fmtTyped(fr *frame, verb byte, v Value, t types.Type) Str {
 	case float64:
 		return Str{S: strconv.FormatFloat(x, 'g', -1, 64)}
 	case Str:
+		if e.fmtLenient && !x.IsConc() {
+			return Str{S: "<symstr>"}
+		}
 		if verb == 'q' {
 			return e.strConcat(e.strConcat(Str{S: "\""}, x), Str{S: "\""})
 		}
@@ -838,6 +844,17 @@ func (e *Engine) fmtTyped(fr *frame, verb byte, v Value, t types.Type) Str {
 
 func (e *Engine) sprintf(fr *frame, format Str, args Slice) Str {
 	f := e.concStr(format, "format string")
+	// Messages (error texts, log lines) are never the subject: symbolic operands are
+	// rendered as placeholders there instead of being case-split. Keys and ids
+	// (no blanks in the format) are rendered exactly.
+	old := e.fmtLenient
+	defer func() { e.fmtLenient = old }()
+	if strings.Contains(f, " ") || fr.fn.Name() == "Errorf" {
+		e.fmtLenient = true
+	}
+	if c := fr.caller; c != nil && c.fn.Pkg != nil && strings.HasSuffix(c.fn.Pkg.Pkg.Path(), "internal/core/errors") {
+		e.fmtLenient = true
+	}
 	out := Str{}
 	ai := 0
 	i := 0
